@@ -63,6 +63,65 @@ class Expiry(PipelineBase):
             if r==z3.sat: rec['sample']={'scenario':mk(m),'expect':'ok' if oc=='ok' else 'err'}
         return rec
 
+class ExpirySecondCall(Expiry):
+    """two verifications in one process (one run): an unrelated, unexpired layout at instant now0, then layout B at a later
+    instant now1.  The verdict on B may depend on B and now1 only - nothing remembered from the first call may let an
+    expired B through (statics persist across the two calls of a run)."""
+    name='C06.expiry_second_call'
+    def __init__(self,**kw):
+        Expiry.__init__(self,**kw); self.name='C06.expiry_second_call'
+        self.bounds={'sequence':'in_toto_verify(A) at now0, then in_toto_verify(B) at now1 >= now0, same process (statics shared)','layout A':'0 steps, validly signed, expiry free','layout B':'0 steps, validly signed, expiry free',
+                     'instants':'free 64+32-bit vectors'}
+        self.witnesses=['second_ok_unexpired','second_err_expired']
+    def entry(self,eng):
+        body=self.entry_body
+        def go(run,args):
+            a1,a2=args
+            r1=eng.call_fn(run,body,a1)
+            run.ghost['now_calls']=1            # the clock has moved on: the next reading is now1
+            r2=eng.call_fn(run,body,a2)
+            return r2
+        return go
+    def mk_args(self,run):
+        b=self.b; OWN=0
+        expA=sym_instant(run,b,'expiresA'); expB=sym_instant(run,b,'expiresB'); now0=sym_instant(run,b,'now0'); now1=sym_instant(run,b,'now1')
+        run.add(z3.Not(instant_lt(now1,now0)))
+        lbA=BlockD('layout',LayoutD([],[],expires=expA,readme='A'),[SigD(OWN,OWN)]); lbB=BlockD('layout',LayoutD([],[],expires=expB,readme='B'),[SigD(OWN,OWN)])
+        caller=[(OWN,OWN)]
+        a1=self.install(run,lbA,caller,{():[]}); a2=self.install(run,lbB,caller,{():[]})
+        run.ghost['nows']=[now0,now1]; run.ghost['now_calls']=0
+        return [a1,a2],{'lbA':lbA,'lbB':lbB,'caller':caller,'expA':expA,'expB':expB,'now0':now0,'now1':now1}
+    def check(self,run,out,g):
+        oc=outcome_of(out); rec=self.new_rec(oc)
+        def mk(m):
+            first=conc_scenario(m,g['lbA'],g['caller'],{():[]},g['now0'].f[0],repeat=1); second=conc_scenario(m,g['lbB'],g['caller'],{():[]},g['now1'].f[0],repeat=1)
+            val=lambda inst: (lambda x: x-(1<<64) if x>>63 else x)(model_value(m,inst.f[0].z()))*1000000000+model_value(m,inst.f[1].z())
+            n0,n1,ea,eb=val(g['now0']),val(g['now1']),val(g['expA']),val(g['expB'])
+            # real time: the first call happens at once; the second after `sleep_ms`; expiries are placed relative to the real clock in the same order
+            first['layout']['layout']['expires_in_ms']=400000 if ea>=n0 else -400000
+            between=(eb>=n0 and eb<n1)
+            second['layout']['layout']['expires_in_ms']=1500 if between else (400000 if eb>=n1 else -400000)
+            return {'kind':'verify_sequence','first':first,'second':second,'sleep_ms':2500 if between else 0}
+        if oc=='panic':
+            r,m=run.check_sat(z3.BoolVal(True))
+            rec['viol']={'kind':'panic','known_key':None,'scenario':mk(m),'predicted':'panic','what':'in_toto_verify panics: '+str(out[1])}; return rec
+        unexp=z3.Not(instant_lt(g['expB'],g['now1']))
+        # replayable natively: the second layout expires between the two instants (shortly after the first call)
+        between=z3.And(z3.Not(instant_lt(g['expB'],g['now0'])),instant_lt(g['expB'],g['now1']),z3.Not(instant_lt(g['expA'],g['now1'])))
+        if oc=='ok':
+            rec['obl']+=1
+            r,m=run.check_sat(z3.And(z3.Not(unexp),between))
+            if r!=z3.sat: r,m=run.check_sat(z3.Not(unexp))
+            if r==z3.sat:
+                rec['viol']={'kind':'expired_layout_accepted_on_a_later_call','known_key':None,'scenario':mk(m),'predicted':'ok','what':'a layout that is expired at the moment of its verification is accepted when another verification ran earlier in the same process'}; return rec
+            self.wit(run,rec,'second_ok_unexpired')
+        elif oc.startswith('err'):
+            if self.classify(run,rec,unexp,{},mk,'err','the second verification fails although nothing is wrong and the layout is unexpired','unexpired_layout_rejected_on_a_later_call'): return rec
+            self.wit(run,rec,'second_err_expired',between)
+        r,m=run.check_sat(between if oc!='ok' else z3.And(unexp,g['expB'].f[0].z()-g['now1'].f[0].z()>100,g['expA'].f[0].z()-g['now1'].f[0].z()>100))
+        if r==z3.sat: rec['sample']={'scenario':mk(m),'expect':'ok' if oc=='ok' else 'err'}
+        return rec
+
 class ParseInstant(Obligation):
     """`layout::parse_datetime` (private; addressed by name in the MIR): the instant read from an RFC 3339 text
     equals wall-clock fields minus UTC offset, for every offset notation; and parse(format(t)) = t to the second."""
